@@ -7,10 +7,21 @@ open Ldk Ldk.Forward Ldk.ChainClaimGen
 theorem run_append (s : St) (a b : List Op) : run (run s a) b = run s (a ++ b) := by
   simp [run, List.foldl_append]
 
-theorem mstep_hs (m : MSt) (op : MOp) (i : Nat) : (mstep m op).hs i = run (m.hs i) (opsFor m op i) := by
-  simp only [mstep, opsFor, run_append, List.append_assoc]
+theorem memo_eq (n : Nat) (f : Nat → St) : memo n f = f := by
+  funext i
+  simp only [memo]
+  split
+  · rename_i h
+    simp
+  · rfl
 
-theorem mstep_n (m : MSt) (op : MOp) : (mstep m op).n = m.n := rfl
+theorem mstep_eq_spec (m : MSt) (op : MOp) : mstep m op = mstepSpec m op := by
+  simp only [mstep, memo_eq]
+
+theorem mstep_hs (m : MSt) (op : MOp) (i : Nat) : (mstep m op).hs i = run (m.hs i) (opsFor m op i) := by
+  simp only [mstep_eq_spec, mstepSpec, opsFor, run_append, List.append_assoc]
+
+theorem mstep_n (m : MSt) (op : MOp) : (mstep m op).n = m.n := by rw [mstep_eq_spec]; rfl
 
 theorem mrun_cons (m : MSt) (op : MOp) (ops : List MOp) : mrun m (op :: ops) = mrun (mstep m op) ops := rfl
 
@@ -104,8 +115,8 @@ theorem events_pre (n : Nat) (ops : List MOp) : ∀ ev ∈ (mrun (minit n) ops).
     apply ih (mstep m op)
     cases op <;> first
       | exact h
-      | (simp only [mstep]; exact resolveBlock_pre _ _ h)
-      | (simp [mstep])
+      | (simp only [mstep_eq_spec, mstepSpec]; exact resolveBlock_pre _ _ h)
+      | (simp [mstep_eq_spec, mstepSpec])
 
 /-! ### interference ops leave `down` and the handed-out flag alone -/
 
@@ -180,7 +191,7 @@ theorem mstep_hs_split (m : MSt) (op : MOp) (i : Nat) :
     rcases List.mem_append.1 ho with h | h
     · exact secOps_interf _ _ _ _ o h
     · exact terOps_interf _ _ _ _ o h
-  · simp only [mstep, run_append, List.append_assoc]
+  · simp only [mstep_eq_spec, mstepSpec, run_append, List.append_assoc]
 
 theorem run_chainPreimage_list (s : St) (l : List HtlcEv) (hl : l ≠ []) (ha : s.alive = true)
     (hd : s.down = .offered ∨ s.down = .fulfilSeen ∨ s.down = .failSeen) :
@@ -213,7 +224,7 @@ theorem drain_claims (m : MSt) (claims : List Claim) (c : Claim) (hc : c ∈ cla
   obtain ⟨ev, hev, hsrc⟩ := resolveBlock_has m.events claims c hc
   have hpre := resolveBlock_pre _ claims hp ev hev
   generalize hm1 : mstep m (.chainSee claims) = m1
-  have hev1 : m1.events = resolveBlock m.events claims := by rw [← hm1]; rfl
+  have hev1 : m1.events = resolveBlock m.events claims := by rw [← hm1, mstep_eq_spec]; rfl
   obtain ⟨t1, ht1, h1⟩ := mstep_hs_split m (.chainSee claims) c.source
   rw [chainSee_pri, hm1] at h1
   have k1 := run_interf_keeps (m.hs c.source) t1 ht1
@@ -362,8 +373,8 @@ theorem coh_step (m : MSt) (op : MOp) (h : Coh m) : Coh (mstep m op) := by
   generalize hh1 : (fun i => run (m.hs i) (priOps m op i)) = hs1
   generalize hh2 : (fun i => run (hs1 i) (secOps m.n m.hs hs1 i)) = hs2
   have e3 : ∀ k, (mstep m op).hs k = run (hs2 k) (terOps m.n m.hs hs2 k) := by
-    intro k; subst hh2; subst hh1; rfl
-  have en : (mstep m op).n = m.n := rfl
+    intro k; subst hh2; subst hh1; rw [mstep_eq_spec]; rfl
+  have en : (mstep m op).n = m.n := mstep_n m op
   have d2 : (hs2 i).downOther = (m.hs i).downOther := by
     subst hh2; subst hh1
     show (run (run (m.hs i) (priOps m op i)) _).downOther = _
